@@ -182,7 +182,7 @@ fn outcome_to_record(
 /// One run from a seed: plan generation and execution both happen in the child.
 pub fn run_one_seed(check: &'static dyn Check, seed: u64, index: u64, tier: Tier, want_sample: bool) -> RunRecord {
     let limits = check.limits(None);
-    let out = run_in_child(seed, &limits, move || {
+    let body = move || {
         let plan = check.gen_plan(seed, index, tier);
         let mut rec = check.execute(&plan, want_sample);
         if want_sample && rec.sample.is_none() {
@@ -193,7 +193,14 @@ pub fn run_one_seed(check: &'static dyn Check, seed: u64, index: u64, tier: Tier
             rec.sample = Some(json!({"plan": plan, "observed": rec.sample}));
         }
         serde_json::to_vec(&rec).unwrap_or_default()
-    });
+    };
+    let mut out = run_in_child(seed, &limits, body);
+    if matches!(out.exit, ExitKind::TimedOut) {
+        // The watchdog is the only wall-clock dependent verdict in the harness. A frozen or
+        // overloaded host (snapshot of the VM, disk stall) makes it fire on a healthy run, so a
+        // run only counts as timed out when it does so twice in a row.
+        out = run_in_child(seed, &limits, body);
+    }
     outcome_to_record(check, seed, index, out.exit, out.output, out.wall)
 }
 
@@ -201,10 +208,14 @@ pub fn run_one_seed(check: &'static dyn Check, seed: u64, index: u64, tier: Tier
 pub fn run_one_plan(check: &'static dyn Check, seed: u64, plan: &Value) -> RunRecord {
     let limits = check.limits(Some(plan));
     let plan2 = plan.clone();
-    let out = run_in_child(seed, &limits, move || {
+    let body = move || {
         let rec = check.execute(&plan2, true);
         serde_json::to_vec(&rec).unwrap_or_default()
-    });
+    };
+    let mut out = run_in_child(seed, &limits, body.clone());
+    if matches!(out.exit, ExitKind::TimedOut) {
+        out = run_in_child(seed, &limits, body);
+    }
     outcome_to_record(check, seed, 0, out.exit, out.output, out.wall)
 }
 
